@@ -856,11 +856,17 @@ fn check(args: &[String]) -> i32 {
     });
     write_json(&root().join("evidence").join(format!("{prop}.json")), &evidence);
 
+    // A violation that reproduces from its replay file in a fresh process stands on its own: it is reported even
+    // if some other worker of the same check wedged or died (which a broken tree can cause as well). Without such
+    // a violation any harness error makes the check's answer "exit 2", never "OK".
+    let reproduced = final_replay.is_some() && !js(&min_info, "status", "").starts_with("unminimised: did not reproduce") && js(&min_info, "status", "") != "unreadable";
     if !m.harness_errors.is_empty() {
         for e in &m.harness_errors {
             eprintln!("HARNESS-ERROR {e}");
         }
-        return 2;
+        if !reproduced {
+            return 2;
+        }
     }
     if let Some(p) = final_replay {
         let v = &m.violations[0];
